@@ -23,7 +23,7 @@ func init() {
 		Title: "generator output type-checks against the current runtime",
 		Text: "Every corpus manifest (and the checked-in manifest) is generated with the current tree's generator and loaded with go/packages against the current runtime: zero type errors, no import cycle, no duplicate declaration. " +
 			"In the thorough tier the manifests under corpus/v2/failing (recorded generator defects) are generated too; each is reported as a known finding while it still fails. A second generator run must produce byte-identical files.",
-		Props: []string{"C12"},
+		Props: []string{"C12", "C09"},
 		Floor: map[string]int{"corpus": 5},
 		Run:   runR121,
 	})
